@@ -33,6 +33,7 @@ def run(ck):
     ck.rule("R3", "a stream whose source is used as a file does not inherit the slicing reader", floor=4)
     ck.rule("R4", "every _getbytes override bounds-checks both ends or converts the source's error to IOError", floor=3)
     ck.rule("R5", "cache lookup and fill use the same key, fill from _getbytes, bypass outside atomic mode", floor=3)
+    _offset_rules(ck)
 
     # ---------------------------------------------------------------- R1
     cm = ck.repo.mod(CPU)
@@ -147,3 +148,58 @@ def run(ck):
                 not (f_succ[0] == c.id or cfg.can_reach(f_succ[0], c.id)) for c in cache_nodes) and \
                 all(t.id in cfg.dominators()[c.id] for c in cache_nodes)
     ck.ob("R5", "getbytes:bypass", ok, bm.where(fn), "outside atomic mode getbytes must read the source directly and never touch the cache")
+
+
+def _offset_rules(ck):
+    """R6: a stream with a base address indexes its source with the RELATIVE offset (absolute - base), and on every path to the access
+    both ends of the request are known to lie inside the source in that same coordinate: rel >= 0 and rel + length <= source length.
+    A test made on the absolute offset (before rebasing) says nothing about the index: a read just below the base becomes a
+    negative index, which Python counts from the end of the bytes."""
+    from sa.astutil import linear, Resolver
+    from sa.facts import guard_facts, entails_nonneg, _lin_sub
+    ck.rule("R6", "the source is indexed with the rebased offset, proved >= 0 and <= length - request on every path", floor=3)
+    m = ck.repo.mod(BS)
+    for cname in ("bin_stream_str", "bin_stream_file"):
+        if ("%s._getbytes" % cname) not in m.funcs:
+            continue          # the class inherits its reader: R3 / R4 decide that case
+        fn = m.func("%s._getbytes" % cname)
+        start, ln = fn.args.args[1].arg, fn.args.args[2].arg
+        cfg = CFG(fn)
+        facts = guard_facts(cfg)
+        res = Resolver(fn)
+        sinks = []
+        for nd in cfg.nodes:
+            for c in node_calls(nd):
+                if isinstance(c.func, ast.Attribute) and c.func.attr == "_getbytes" and isinstance(c.func.value, ast.Call) and dotted(c.func.value.func) == "super" and c.args:
+                    sinks.append((nd, c, c.args[0], c.args[1] if len(c.args) > 1 else None))
+                if dotted(c.func) == "self.bin.seek" and len(c.args) == 1 and not (isinstance(c.args[0], ast.Name) and c.args[0].id.startswith("cur")):
+                    sinks.append((nd, c, c.args[0], None))
+            if nd.ast is not None and nd.kind == "stmt":
+                for s_ in walk_local(nd.ast):
+                    if isinstance(s_, ast.Subscript) and norm(s_.value) == "self.bin" and isinstance(s_.slice, ast.Slice) and s_.slice.lower is not None:
+                        sinks.append((nd, s_, s_.slice.lower, None))
+        ck.need(sinks, "%s._getbytes: access to the source not found" % cname)
+        rebased_in_place = any(nd.kind == "stmt" and isinstance(nd.ast, ast.AugAssign) and isinstance(nd.ast.op, ast.Sub) and norm(nd.ast.target) == start
+                               and norm(nd.ast.value) == "self.base_address" for nd in cfg.nodes) or \
+            any(nd.kind == "stmt" and isinstance(nd.ast, ast.Assign) and norm(nd.ast.targets[0]) == start and norm(nd.ast.value) == "%s - self.base_address" % start for nd in cfg.nodes)
+        for (nd, c, idx, _l2) in sinks:
+            e = res.expand_node(idx)
+            R = linear(e)
+            rebased = ("self.base_address", -1) in R[0] or (rebased_in_place and R == (frozenset([(start, 1)]), 0))
+            ck.ob("R6", "%s._getbytes:index-is-rebased" % cname, rebased, m.where(c),
+                  "the source is accessed at `%s`, which is not the request's offset minus self.base_address" % norm(e)[:50])
+            f = facts.get(nd.id, frozenset())
+            # facts are texts over the names as bound at this node: use the un-expanded index when the parameter was rebased in place
+            cands = [linear(idx), R]
+            low = None
+            for Rf in cands:
+                low = low or entails_nonneg(f, Rf)
+            ck.ob("R6", "%s._getbytes:lower-bound" % cname, low is not None, m.where(c),
+                  "no test on the path implies `%s` >= 0 (tests known here: %s): a request starting below the base address indexes the "
+                  "source from its end instead of raising IOError" % (norm(idx)[:40], sorted("%s %s %s" % (x[1], x[2], x[3]) for x in f if x[0] == "cmp")[:4]))
+            up = None
+            for Rf in cands:
+                goal = _lin_sub(_lin_sub((frozenset([("self.l", 1)]), 0), Rf), (frozenset([(ln, 1)]), 0))
+                up = up or entails_nonneg(f, goal)
+            ck.ob("R6", "%s._getbytes:upper-bound" % cname, up is not None, m.where(c),
+                  "no test on the path implies `%s` + %s <= self.l" % (norm(idx)[:40], ln))
